@@ -150,7 +150,8 @@ FUNCS = {"pow": lambda a, b: math.pow(a, b), "exp": math.exp, "sqrt": math.sqrt,
 def evaluate(ast, env: dict, funcs: dict | None = None):
     k = ast[0]
     if k == "num":
-        return float(ast[1])
+        # C semantics: a literal written without point and exponent is an `int` (32-bit arithmetic, truncating division)
+        return int(ast[1]) if re.fullmatch(r"\d+", str(ast[1])) and int(ast[1]) < 2 ** 31 else float(ast[1])
     if k == "var":
         return env[ast[1]]
     if k == "neg":
@@ -176,6 +177,14 @@ def evaluate(ast, env: dict, funcs: dict | None = None):
         if op == "||":
             return bool(a) or bool(evaluate(ast[3], env, funcs))
         b = evaluate(ast[3], env, funcs)
+        if type(a) is int and type(b) is int and op in ("+", "-", "*", "/"):
+            if op == "/":
+                if b == 0:
+                    raise ZeroDivisionError("integer division by zero")
+                q = abs(a) // abs(b)
+                return q if (a >= 0) == (b >= 0) else -q
+            v = {"+": a + b, "-": a - b, "*": a * b}[op]
+            return (v + 2 ** 31) % 2 ** 32 - 2 ** 31          # (what two's-complement hardware leaves behind on overflow)
         return {"+": lambda: a + b, "-": lambda: a - b, "*": lambda: a * b, "/": lambda: a / b, "<": lambda: a < b, "<=": lambda: a <= b,
                 ">": lambda: a > b, ">=": lambda: a >= b, "==": lambda: a == b, "!=": lambda: a != b}[op]()
     raise ValueError(k)
